@@ -688,6 +688,9 @@ class BuiltinMixin:
                                                vth.Idx(vals, k) == z3.Select(vm, th.Idx(keys, k))),
                                patterns=[vth.Idx(vals, k)]))
         if which == "values":
+            # coverage stated on the values themselves (creates the term vals[pos(x)] for every key in the domain)
+            st.pc.append(z3.ForAll([x], z3.Implies(z3.Select(dom, x), vth.Idx(vals, pos(x)) == z3.Select(vm, x)),
+                                   patterns=[z3.Select(dom, x)]))
             return V(TSeq(t.val), vals)
         # items: sequence of pairs
         pt = TTuple((t.key, t.val))
